@@ -127,6 +127,64 @@ def sanitizer_reports(outdir, repo):
     return in_repo, third
 
 
+def run_miri(paths, binname, seed, spec, outdir, m, inconclusive, pid):
+    """Miri flavour: the property binary interpreted by `cargo +nightly miri run` at a tiny scale (≈0.7 s per
+    operation), one process per shard. Miri reports undefined behaviour and data races in everything it
+    interprets (hickory, dependencies, std); a report is attributed like a sanitizer report: a backtrace frame
+    under <repo>/crates ⇒ violation of this property, anything else ⇒ listed as third party."""
+    import re
+    if os.path.isdir(outdir):
+        shutil.rmtree(outdir)
+    os.makedirs(outdir, exist_ok=True)
+    n = int(spec.get("miri_shards", 8))
+    scale = float(os.environ.get("VERIF_SCALE", "1")) * float(spec.get("miri_scale", 0.00002))
+    env = dict(os.environ)
+    env.update({"CARGO_NET_OFFLINE": "true", "CARGO_TARGET_DIR": paths.target + "-miri", "MIRIFLAGS": "-Zmiri-disable-isolation",
+                "RUSTFLAGS": "--cfg hickory_dns_verif"})
+    base = ["cargo", "+nightly", "miri", "run", "--offline", "--quiet", "--bin", binname]
+    if paths.alt_repo:
+        base += ["--config", "paths=[%s]" % ",".join('"%s/crates/%s"' % (paths.repo, c) for c in CRATES)]
+    procs = []
+    for i in range(n):
+        lf = open(os.path.join(outdir, "shard-%d.log" % i), "w")
+        cmd = base + ["--", "--tier", "quick", "--seed", str(seed), "--shard", str(i), "--nshards", str(16 * 64), "--out", outdir, "--scale", str(scale)]
+        procs.append((i, subprocess.Popen(cmd, stdout=lf, stderr=subprocess.STDOUT, cwd=HARNESS, env=env), lf))
+    note = {"shards": n, "evaluations": 0, "ub_reports_in_repo": [], "ub_reports_third_party": [], "problems": []}
+    deadline = time.time() + float(spec.get("miri_timeout", 5400))
+    for i, p, lf in procs:
+        try:
+            rc = p.wait(timeout=max(1, deadline - time.time()))
+        except subprocess.TimeoutExpired:
+            p.kill(); p.wait(); rc = None
+        lf.close()
+        txt = open(os.path.join(outdir, "shard-%d.log" % i), errors="replace").read()
+        sp = os.path.join(outdir, "shard-%d.summary.json" % i)
+        if os.path.exists(sp):
+            note["evaluations"] += json.load(open(sp))["evaluations"]
+        um = re.search(r"error: (Undefined Behavior|unsupported operation|Data race detected)[^\n]*", txt)
+        if um and um.group(1) != "unsupported operation":
+            frames = re.findall(r"(?:inside|at) [^\n]*?(/\S+?\.rs):\d+", txt[um.start():])
+            hit = next((f for f in frames if (paths.repo.rstrip("/") + "/crates/") in f), None)
+            rec = um.group(0)[:200] + " @ " + (hit or (frames[0] if frames else "?"))
+            if hit:
+                note["ub_reports_in_repo"].append(rec)
+                sig = "%s|%s" % (um.group(1), hit[hit.find("/crates/") + 1:])
+                wpath = os.path.join(outdir, "miri-%s.json" % hashlib.sha1(sig.encode()).hexdigest()[:12])
+                with open(wpath, "w") as wf:
+                    json.dump({"property": pid, "rule": "miri", "sig": sig, "case": {"shard": i, "seed": seed, "scale": scale, "report": txt[um.start():um.start() + 20000]},
+                               "expected": "no undefined behaviour with a frame in hickory-dns", "observed": um.group(0)[:300], "seed": seed, "tier": "thorough", "flavour": "miri"}, wf, indent=1)
+                m["per_sig"]["miri|" + sig] = m["per_sig"].get("miri|" + sig, 0) + 1
+                m["violations"].append({"rule": "miri", "sig": sig, "file": wpath, "flavour": "miri"})
+            else:
+                note["ub_reports_third_party"].append(rec)
+        elif rc != 0 or not os.path.exists(sp):
+            why = "timeout" if rc is None else ("unsupported operation (FFI?)" if um else "exit %s" % rc)
+            note["problems"].append("shard %d: %s: %s" % (i, why, txt[-300:].replace("\n", " | ")))
+    if note["problems"]:
+        inconclusive.append("flavour miri: %d shard(s) did not complete" % len(note["problems"]))
+    return note
+
+
 def load_findings(pid):
     path = os.path.join(VERIF, "known_findings.json")
     if not os.path.exists(path):
@@ -378,6 +436,9 @@ def main(argv):
     flavour_notes = {}
     if args.tier == "thorough":
         for fl in spec.get("thorough_flavours", []):
+            if fl == "miri":
+                flavour_notes[fl] = run_miri(paths, binname, seed, spec, os.path.join(paths.run, "fl-miri"), m, inconclusive, pid)
+                continue
             fok, fbindir, flog, fsecs = build(paths, [binname, "vmerge"], fl)
             if not fok:
                 flavour_notes[fl] = "build failed: " + flog[-300:]
